@@ -224,6 +224,20 @@ func (w *world) p4session() ([]sysh.PdrIE, []sysh.FarIE, []sysh.QerIE) {
 		q1.Gate, q2.Gate = [2]uint8{uint8(r.Intn(2)), uint8(r.Intn(2))}, [2]uint8{uint8(r.Intn(2)), uint8(r.Intn(2))}
 		qers = []sysh.QerIE{q1, q2}
 	}
+	// PFCP gives the order of the Create QER IEs and of a PDR's QER ID IEs no meaning: the session-wide QER may come
+	// first in either (the terminations action must still follow the rule's application QER)
+	if len(qers) > 1 && r.Intn(2) == 0 {
+		for i, j := 0, len(qers)-1; i < j; i, j = i+1, j-1 {
+			qers[i], qers[j] = qers[j], qers[i]
+		}
+	}
+	if r.Intn(3) == 0 {
+		for k := range pdrs {
+			if len(pdrs[k].Qers) == 2 {
+				pdrs[k].Qers = []uint32{pdrs[k].Qers[1], pdrs[k].Qers[0]}
+			}
+		}
+	}
 	return pdrs, fars, qers
 }
 
